@@ -485,8 +485,11 @@ func (g *gen) behC08() M {
 		for i := 0; i < g.rng.Intn(4); i++ {
 			cells := []any{}
 			for j := 0; j < nc; j++ {
+				co := run.I(run.AsM(cols[j]), "oid")
 				if g.chance(0.15) {
 					cells = append(cells, M{"c": "null", "nk": g.pick("nil", "ptr", "inv")})
+				} else if (co == 21 || co == 23 || co == 20) && g.chance(0.2) {
+					cells = append(cells, M{"c": "tonly"}) // text rendering only: refused under a binary result format
 				} else {
 					cells = append(cells, M{"c": "v"})
 				}
@@ -727,15 +730,21 @@ func (g *gen) behC01() M {
 	if g.chance(0.3) {
 		kvs = append(kvs, M{"k": "application_name", "v": g.text(8)})
 	}
-	steps = append(steps, send(M{"t": "Startup", "term": true, "kvs": kvs}))
+	st0 := M{"t": "Startup", "term": true, "kvs": kvs}
+	if g.chance(0.25) {
+		st0["tail"] = "good-" + g.text(6) // surplus behind the terminator that would pass for a password
+	}
+	steps = append(steps, send(st0))
 	var m M
-	switch g.rng.Intn(12) {
+	switch g.rng.Intn(13) {
+	case 12:
+		m = M{"t": "Bad", "ty": "p", "cls": "short"}
 	case 0, 1, 2:
 		m = M{"t": "p", "pw": "good"}
 	case 3, 4, 5:
 		m = M{"t": "p", "pw": "bad"}
 	case 6:
-		m = M{"t": "p", "pw": "err"}
+		m = M{"t": "p", "pw": g.pick("err", "errc")}
 	case 7:
 		m = M{"t": "Q", "q": g.trivialQ()}
 	case 8:
